@@ -12,8 +12,9 @@ VERIF = os.path.dirname(os.path.dirname(os.path.abspath(__file__)))
 REPO = os.environ.get('ATHLIB_REPO', '/repo')
 SPECS = os.path.join(VERIF, 'specs')
 REFDATA = os.path.join(VERIF, 'refdata')
-EVIDENCE = os.path.join(VERIF, 'evidence')
-REPLAYDIR = os.path.join(VERIF, 'replay')
+# development aids (never set by a registered command): experiments against scratch copies write elsewhere
+EVIDENCE = os.environ.get('VERIF_EVIDENCE_DIR') or os.path.join(VERIF, 'evidence')
+REPLAYDIR = os.environ.get('VERIF_REPLAY_DIR') or (os.path.join(os.environ['VERIF_EVIDENCE_DIR'], 'replay') if os.environ.get('VERIF_EVIDENCE_DIR') else os.path.join(VERIF, 'replay'))
 KNOWN = os.path.join(VERIF, 'known_findings.json')
 TLAJAR = '/opt/veriftools/tla/tla2tools.jar'
 TLADEPS = '/opt/veriftools/tla/CommunityModules-deps.jar'
